@@ -1,3 +1,4 @@
+pub mod alloc;
 pub mod gen;
 pub mod io;
 pub mod kinds;
